@@ -359,6 +359,14 @@ fn main() {
                         cases.push(gen_neg_order_family(&mut rng));
                         continue;
                     }
+                    3 => {
+                        cases.push(gen_rec_query_family(&mut rng));
+                        continue;
+                    }
+                    4 => {
+                        cases.push(gen_multikey_family(&mut rng));
+                        continue;
+                    }
                     _ => {}
                 }
                 let (p, tags) = gen_program(&mut rng, &gcfg);
@@ -410,6 +418,10 @@ fn main() {
                 corpus().into_iter().map(|(p, e, tag)| (p, e, vec!["corpus", tag])).collect();
             cases.extend(agg_corpus().into_iter().map(|(p, e, tag)| (p, e, vec!["corpus", tag])));
             while cases.len() < args.n {
+                if rng.chance(1, 6) {
+                    cases.push(gen_rec_query_family(&mut rng));
+                    continue;
+                }
                 let mut gcfg = GenCfg::default();
                 gcfg.allow_agg = rng.chance(1, 3);
                 if gcfg.allow_agg {
@@ -452,6 +464,10 @@ fn main() {
             while cases.len() < args.n {
                 if rng.chance(1, 3) {
                     cases.push(gen_shared_family(&mut rng));
+                    continue;
+                }
+                if rng.chance(1, 4) {
+                    cases.push(gen_rec_query_family(&mut rng));
                     continue;
                 }
                 let (p, tags) = gen_program(&mut rng, &gcfg);
@@ -610,6 +626,14 @@ fn main() {
                 }
                 if !is06 && rng.chance(1, 4) {
                     cases.push(gen_bound_rec_family(&mut rng));
+                    continue;
+                }
+                if !is06 && rng.chance(1, 6) {
+                    cases.push(gen_rec_query_family(&mut rng));
+                    continue;
+                }
+                if !is06 && rng.chance(1, 6) {
+                    cases.push(gen_multikey_family(&mut rng));
                     continue;
                 }
                 let gcfg = GenCfg { allow_mutual: false, allow_strings: !is06, ..GenCfg::default() };
